@@ -95,7 +95,9 @@ class ASeq(Sequence):
 
 async def _yield(plan):
     if plan.yields is not None:
-        n = plan.yields.randint(0, 2)
+        # uneven latencies: random, or (every other plan) shrinking call by call so that later requests finish first
+        plan.calls = getattr(plan, "calls", 0) + 1
+        n = plan.yields.randint(0, 2) if not getattr(plan, "shrinking", False) else max(0, 6 - plan.calls % 8)
         for _ in range(n):
             await asyncio.sleep(0)
         if plan.log is not None:
